@@ -993,10 +993,20 @@ mod ws {
         }
     }
 
-    async fn pump(from: Rc<PollFd<Socket>>, to: Rc<PollFd<Socket>>, cfg: Relay, moved: Rc<Cell<u64>>) {
+    async fn pump(
+        from: Rc<PollFd<Socket>>,
+        to: Rc<PollFd<Socket>>,
+        cfg: Relay,
+        moved: Rc<Cell<u64>>,
+        hold: Rc<Cell<bool>>,
+    ) {
         let mut buf = vec![0u8; 1 << 16];
         let (mut ri, mut di) = (0, 0);
         loop {
+            // while held the relay does not read: the sender's socket fills up
+            while hold.get() {
+                compio_runtime::time::sleep(Duration::from_millis(1)).await;
+            }
             let want = lim(&cfg.rlim, &mut ri).min(buf.len());
             let n = match (&*from).read(&mut buf[..want]).await {
                 Ok(0) | Err(_) => break,
@@ -1054,6 +1064,116 @@ mod ws {
     }
 
     type Ws = WebSocketStream<Socket>;
+
+    const BIG: usize = 400_000;
+
+    fn big_msg(seed: u64) -> Message {
+        Message::Binary(payload(seed, BIG).into())
+    }
+
+    /// mode 3: the outgoing direction is stalled (the relay does not read) with a
+    /// large message fed but not flushed; the peer's messages must still all be
+    /// delivered, in order, once, after the flush can complete.
+    async fn ws_client_stalled(
+        mut ws: Ws,
+        msgs: Vec<Message>,
+        seed: u64,
+        out: Rc<RefCell<WsOut>>,
+        hold: Rc<Cell<bool>>,
+        pend: Rc<Cell<u64>>,
+    ) {
+        use futures_util::{SinkExt, Stream};
+        macro_rules! bail {
+            ($step:expr) => {{
+                let mut o = out.borrow_mut();
+                o.err_step = $step;
+                o.done = true;
+                hold.set(false);
+                return;
+            }};
+        }
+        hold.set(true);
+        if SinkExt::feed(&mut ws, big_msg(seed)).await.is_err() {
+            bail!(2);
+        }
+        out.borrow_mut().steps += 1;
+        for want in &msgs {
+            let r = std::future::poll_fn(|cx| {
+                let r = Pin::new(&mut ws).poll_next(cx);
+                if r.is_pending() {
+                    pend.set(pend.get() + 1);
+                }
+                r
+            })
+            .await;
+            match r {
+                Some(Ok(m)) if m == *want => {
+                    let mut o = out.borrow_mut();
+                    o.n_ok += 1;
+                    o.steps += 1;
+                }
+                _ => bail!(4),
+            }
+        }
+        if ws.flush().await.is_err() {
+            bail!(3);
+        }
+        if ws.close(None).await.is_err() {
+            bail!(5);
+        }
+        out.borrow_mut().steps += 1;
+        loop {
+            match ws.read().await {
+                Ok(Message::Close(_)) => break,
+                Ok(_) => {}
+                Err(_) => bail!(6),
+            }
+        }
+        match ws.read().await {
+            Err(compio_ws::tungstenite::Error::ConnectionClosed) => {}
+            _ => bail!(7),
+        }
+        let mut o = out.borrow_mut();
+        o.close_ok = true;
+        o.done = true;
+    }
+
+    async fn ws_server_stalled(mut ws: Ws, msgs: Vec<Message>, seed: u64, out: Rc<RefCell<WsOut>>) {
+        for m in msgs {
+            if ws.send(m).await.is_err() {
+                let mut o = out.borrow_mut();
+                o.err_step = 2;
+                o.done = true;
+                return;
+            }
+            out.borrow_mut().steps += 1;
+        }
+        loop {
+            match ws.read().await {
+                Ok(m @ Message::Binary(_)) => {
+                    let mut o = out.borrow_mut();
+                    o.n_ok += (m == big_msg(seed)) as u64;
+                    o.steps += 1;
+                }
+                Ok(_) => {
+                    out.borrow_mut().steps += 1;
+                }
+                Err(compio_ws::tungstenite::Error::ConnectionClosed) => {
+                    let _ = futures_util::AsyncWriteExt::close(ws.get_mut()).await;
+                    let mut o = out.borrow_mut();
+                    o.close_ok = true;
+                    o.done = true;
+                    return;
+                }
+                Err(_) => {
+                    let mut o = out.borrow_mut();
+                    o.err_step = 4;
+                    o.done = true;
+                    return;
+                }
+            }
+        }
+    }
 
     async fn ws_client(mut ws: Ws, msgs: Vec<Message>, mode: u64, out: Rc<RefCell<WsOut>>, gate: Rc<Cell<u64>>) {
         let expect = |m: &Message| match m {
@@ -1179,7 +1299,9 @@ mod ws {
     }
 
     /// `2 tls r_c2s r_s2c sndbuf mode nmsg (kind len)* seed`
-    /// Result: `0 verdict (done hs_ok n_ok close_ok err_step)x2 moved_c2s moved_s2c nmsg`
+    /// mode 3: the messages are the SERVER's; the client has a 400000-byte message
+    /// fed but unflushed while the relay does not read its direction.
+    /// Result: `0 verdict (done hs_ok n_ok close_ok err_step)x2 moved_c2s moved_s2c nmsg pend_at_release`
     pub fn run_ws(c: &mut Case) -> Result<Vec<u64>, BadCase> {
         let tls = c.take()?;
         let r1 = dec_relay(c)?;
@@ -1187,7 +1309,7 @@ mod ws {
         let sndbuf = c.take()? as usize;
         let mode = c.take()?;
         let nmsg = c.take()? as usize;
-        if tls > 2 || mode > 2 || nmsg > 64 {
+        if tls > 2 || mode > 3 || nmsg > 64 {
             return Err(BadCase);
         }
         let mut spec = Vec::new();
@@ -1204,14 +1326,19 @@ mod ws {
         let outs = [Rc::new(RefCell::new(WsOut::default())), Rc::new(RefCell::new(WsOut::default()))];
         let moved = [Rc::new(Cell::new(0u64)), Rc::new(Cell::new(0u64))];
         let gate = Rc::new(Cell::new(0u64));
+        let hold = Rc::new(Cell::new(false));
+        let pend = Rc::new(Cell::new(0u64));
+        let pend_at_release = Rc::new(Cell::new(0u64));
 
         let rt = compio_runtime::Runtime::new().unwrap();
         let verdict = rt.block_on(async {
             let (cs, ra) = pair(sndbuf);
             let (rb, ss) = pair(sndbuf);
             let (ra, rb) = (Rc::new(ra), Rc::new(rb));
-            compio_runtime::spawn(pump(ra.clone(), rb.clone(), r1, moved[0].clone())).detach();
-            compio_runtime::spawn(pump(rb, ra, r2, moved[1].clone())).detach();
+            compio_runtime::spawn(pump(ra.clone(), rb.clone(), r1, moved[0].clone(), hold.clone())).detach();
+            compio_runtime::spawn(pump(rb, ra, r2, moved[1].clone(), Rc::new(Cell::new(false)))).detach();
+            let (h0, p0) = (hold.clone(), pend.clone());
+            let smsgs = msgs.clone();
             let (o0, o1) = (outs[0].clone(), outs[1].clone());
             let (g0, g1) = (gate.clone(), gate.clone());
             let pairs = match tls {
@@ -1239,7 +1366,11 @@ mod ws {
                 match r {
                     Ok((ws, _)) => {
                         o0.borrow_mut().hs_ok = true;
-                        ws_client(ws, msgs, mode, o0, g0).await
+                        if mode == 3 {
+                            ws_client_stalled(ws, msgs, seed, o0, h0, p0).await
+                        } else {
+                            ws_client(ws, msgs, mode, o0, g0).await
+                        }
                     }
                     Err(_) => {
                         let mut o = o0.borrow_mut();
@@ -1265,7 +1396,11 @@ mod ws {
                 match r {
                     Ok(ws) => {
                         o1.borrow_mut().hs_ok = true;
-                        ws_server(ws, mode, o1, g1).await
+                        if mode == 3 {
+                            ws_server_stalled(ws, smsgs, seed, o1).await
+                        } else {
+                            ws_server(ws, mode, o1, g1).await
+                        }
                     }
                     Err(_) => {
                         let mut o = o1.borrow_mut();
@@ -1278,14 +1413,31 @@ mod ws {
             // watchdog: progress = relayed bytes + application steps
             let mut last = (0u64, Instant::now());
             let t0 = Instant::now();
+            let mut held_since: Option<Instant> = None;
+            let mut pending_since: Option<Instant> = None;
             std::future::poll_fn(|cx| {
                 if outs.iter().all(|o| o.borrow().done) {
                     return Poll::Ready(0u64);
                 }
+                if hold.get() {
+                    // release the stalled direction a little after the reader has
+                    // been seen Pending (or after 400 ms if it never is)
+                    let hs = *held_since.get_or_insert_with(Instant::now);
+                    if pend.get() >= 1 && pending_since.is_none() {
+                        pending_since = Some(Instant::now());
+                    }
+                    let go = pending_since.is_some_and(|t| t.elapsed() > Duration::from_millis(15))
+                        || hs.elapsed() > Duration::from_millis(400);
+                    if go {
+                        pend_at_release.set(pend.get());
+                        hold.set(false);
+                    }
+                    last.1 = Instant::now(); // a deliberate pause, not a stall
+                }
                 let p = moved[0].get() + moved[1].get() + outs[0].borrow().steps + outs[1].borrow().steps;
                 if p != last.0 {
                     last = (p, Instant::now());
-                } else if last.1.elapsed() > Duration::from_millis(1200) {
+                } else if last.1.elapsed() > Duration::from_millis(3000) {
                     return Poll::Ready(3);
                 }
                 if t0.elapsed() > Duration::from_secs(40) {
@@ -1302,7 +1454,7 @@ mod ws {
             let o = o.borrow();
             res.extend([o.done as u64, o.hs_ok as u64, o.n_ok, o.close_ok as u64, o.err_step]);
         }
-        res.extend([moved[0].get(), moved[1].get(), nmsg as u64]);
+        res.extend([moved[0].get(), moved[1].get(), nmsg as u64, pend_at_release.get()]);
         Ok(res)
     }
 }
